@@ -202,6 +202,46 @@ fn charclass_family(b: &mut Builder, tier: Tier) {
     }
 }
 
+/// C12 (behavioural half): every spelling of pool characters, and literals made of several escapes next to
+/// each other (CR LF, quote/backslash pairs...), run as parsers
+pub fn c12(tier: Tier) -> Vec<Case> {
+    let mut b = Builder::new();
+    charclass_family(&mut b, tier);
+    let pool = ['\r', '\n', '\t', 'b', '\\', '\''];
+    let inputs = InputSpec::Strings { alphabet: vec!['\r', '\n', '\t', 'b', '\\', '\''], max_len: 3 };
+    let spell = |c: char, escaped: bool| -> LitChar {
+        if escaped {
+            LitChar::canon(c)
+        } else if c == '\\' {
+            LitChar::canon(c)
+        } else {
+            LitChar { c, sp: Spelling::Raw }
+        }
+    };
+    for a in pool {
+        for c in pool {
+            for (ea, ec) in [(true, true), (false, false), (true, false)] {
+                for dq in [false, true] {
+                    for insensitive in [false, true] {
+                        let e = Expr::Lit { chars: vec![spell(a, ea), spell(c, ec)], insensitive, dq };
+                        let g = root_grammar(vec![Directive::Export, Directive::Position, Directive::NoSkipWs], seq(vec![e, opt(rref("char"))]), &[]);
+                        add_if_wf(&mut b, "escapes/pairs", g, &inputs);
+                    }
+                }
+            }
+            // hex / unicode spellings next to each other
+            let e = Expr::Lit {
+                chars: vec![LitChar { c: a, sp: Spelling::Hex { upper: true } }, LitChar { c, sp: Spelling::Brace { digits: 2, upper: false } }, LitChar { c: 'b', sp: Spelling::U4 { upper: false } }],
+                insensitive: false,
+                dq: true,
+            };
+            let g = root_grammar(vec![Directive::Export, Directive::Position, Directive::NoSkipWs], seq(vec![e, opt(rref("char"))]), &[]);
+            add_if_wf(&mut b, "escapes/pairs", g, &inputs);
+        }
+    }
+    b.cases
+}
+
 /// every documented spelling of a character
 pub fn spellings_for(c: char) -> Vec<Spelling> {
     let v = c as u32;
@@ -288,15 +328,23 @@ pub fn c02(tier: Tier) -> Vec<Case> {
     // contexts x bundles x tails
     let ctxs = contexts(&[lit("b"), lit("c")], &NO_LOOKAHEAD_OPS, k_ctx);
     let tails: Vec<Option<Expr>> = vec![None, Some(field("f", "X")), Some(field("g", "Y"))];
+    let heads: Vec<Option<Expr>> = vec![None, Some(field("f", "X"))];
     for c in &ctxs {
         for (bn, bu) in bundles() {
             for t in &tails {
-                let body = match t {
-                    None => fill(c, &bu),
-                    Some(t) => seq(vec![fill(c, &bu), t.clone()]),
-                };
-                let g = root_grammar(vec![Directive::Export, Directive::NoSkipWs], body, &leaves);
-                add_if_wf(&mut b, &format!("ctx/{bn}"), g, &inputs);
+                for h in &heads {
+                    let mut parts = Vec::new();
+                    if let Some(h) = h {
+                        parts.push(h.clone());
+                    }
+                    parts.push(fill(c, &bu));
+                    if let Some(t) = t {
+                        parts.push(t.clone());
+                    }
+                    let body = if parts.len() == 1 { parts.pop().unwrap() } else { seq(parts) };
+                    let g = root_grammar(vec![Directive::Export, Directive::NoSkipWs], body, &leaves);
+                    add_if_wf(&mut b, &format!("ctx/{bn}"), g, &inputs);
+                }
             }
         }
     }
@@ -344,7 +392,8 @@ pub fn c04(tier: Tier) -> Vec<Case> {
         Tier::Quick => (2, 3, 3),
         Tier::Thorough => (3, 4, 4),
     };
-    let alphabet = vec!['a', 'k', 'K', 'é', 'è', '©', '€', '😀', ' ', '\u{212A}'];
+    // 香 = E9 A6 99 and 中 = E4 B8 AD: their lead bytes are the code points of é and ä
+    let alphabet = vec!['a', 'k', 'K', 'é', 'è', '©', '€', '😀', ' ', '\u{212A}', '香', '中'];
     let inputs = InputSpec::Strings { alphabet, max_len: len };
     let mut all: Vec<Expr> = trees(&atoms, &ALL_OPS, k_full);
     for t in trees_by_size(&small_atoms, &ALL_OPS, k_small).into_iter().skip(k_full) {
@@ -358,6 +407,16 @@ pub fn c04(tier: Tier) -> Vec<Case> {
             }
             let g = root_grammar(dirs, e.clone(), &leaves);
             add_if_wf(&mut b, if noskip { "utf8/no_skip_ws" } else { "utf8/skip" }, g, &inputs);
+        }
+    }
+    // the guard itself: non-ASCII case-insensitive literals must be rejected by the compiler; if a changed
+    // compiler accepts them, the generated parser is run and judged like every other one
+    for l in ["é", "ä", "aé", "éa", "\u{e9}k", "ÿ", "Â"] {
+        for e in [ilit(l), seq(vec![ilit(l), field("s", "S")]), star(ilit(l)), seq(vec![opt(ilit(l)), field("c", "char")])] {
+            let g = root_grammar(vec![Directive::Export, Directive::Position, Directive::NoSkipWs], e, &leaves);
+            if b.add("guard/non-ascii-insensitive", g, inputs.clone()) {
+                b.last().note = "may-be-rejected".into();
+            }
         }
     }
     b.cases
